@@ -49,116 +49,7 @@ func runC09(c *eng.Ctx) {
 	p := c.P
 
 	// ---- 1. GOC: indexKVStore.createValue -------------------------------------------------------------
-	c.Rule("GOC", kvsT+".createValue", func() {
-		f := c.Fn(kvsT + ".createValue")
-		ls := p.Locks(f, nil)
-		facts := p.MustFacts(f)
-		gen := c.One(f, eng.CallTo("param:createFn"), "createFn()")
-		ins := c.Some(f, func(p *eng.Prog, in ssa.Instruction) bool { _, ok := in.(*ssa.MapUpdate); return ok }, "insert kvs[key] = id")
-		c.Check(ls.At(gen.Instr).HasField(kvsMu, true), "generator-under-lock", gen.Instr, f, "the ID generator runs under the store's write lock", "held: "+ls.At(gen.Instr).String())
-		for i, s := range ins {
-			ok, why := ls.SameHold(gen.Instr, s.Instr, kvsMu, true)
-			c.Check(ok, fmt.Sprintf("generate-and-insert-one-hold[%d]", i), s.Instr, f, "the ID is generated and inserted in one write hold", why)
-			mu := s.Instr.(*ssa.MapUpdate)
-			c.Check(eng.DerivesFromCall(mu.Value, gen.Instr.(ssa.Value), 0), fmt.Sprintf("inserted-id-is-generated[%d]", i), s.Instr, f, "the inserted value is the generated ID", "inserts "+p.Desc(mu.Value))
-			c.Check(eng.DependsOn(mu.Map, func(x ssa.Value) bool { return strings.HasSuffix(p.Desc(x), ".mutable") }), fmt.Sprintf("insert-into-mutable[%d]", i), s.Instr, f,
-				"the new entry goes into the mutable store", "map is "+p.Desc(mu.Map))
-			okd, why2 := eng.OkDominates(f, gen.Instr, s.Instr)
-			c.Check(okd, fmt.Sprintf("insert-only-on-generator-success[%d]", i), s.Instr, f, "nothing is inserted when the generator failed", why2)
-		}
-		// re-check of both memory stores under the lock, generator only on their miss edges
-		for _, mem := range []string{"mutable", "immutable"} {
-			var look []eng.Site
-			for _, s := range p.Sites(f, eng.CallTo(kvsT+".getValueFromMem")) {
-				a := eng.CallArgs(s.Instr.(*ssa.Call))
-				if strings.HasSuffix(p.Desc(a[0]), "."+mem) && p.Desc(a[2]) == "key" && p.Desc(a[1]) == "bucketID" {
-					look = append(look, s)
-				}
-			}
-			if len(look) == 0 {
-				c.Check(false, "recheck:"+mem, gen.Instr, f, "the key is looked up again in the "+mem+" store under the write lock before an ID is generated",
-					"no getValueFromMem(s."+mem+", bucketID, key) in createValue")
-				continue
-			}
-			l := look[0].Instr
-			okh, why := ls.SameHold(l, gen.Instr, kvsMu, true)
-			c.Check(okh, "recheck-in-hold:"+mem, l, f, "the re-check of "+mem+" and the generation are in the same write hold", why)
-			hit, _ := eng.BoolCheckEdges(f, l.(ssa.Value))
-			hitReaches := false
-			for _, e := range hit {
-				first := e.B.Succs[e.Succ].Instrs[0]
-				if _, ok := eng.PathExists(eng.PathQuery{Fn: f, After: first, Target: func(in ssa.Instruction) bool { return in == gen.Instr }}); ok || first == gen.Instr {
-					hitReaches = true
-				}
-			}
-			c.Check(len(hit) > 0 && !hitReaches && eng.DominatedBy(f, gen.Instr, look, nil), "generate-only-on-miss:"+mem, gen.Instr, f,
-				"an ID is generated only after the "+mem+" re-check missed (no path from its hit outcome reaches the generator; a hit returns the existing ID)",
-				fmt.Sprintf("hit edges %d, generator reachable from a hit: %v", len(hit), hitReaches))
-		}
-		// a flush that completed between lookup and lock moved entries to the persisted store
-		var cmp *ssa.If
-		for _, b := range eng.BlocksT(f) {
-			if len(b.Instrs) == 0 {
-				continue
-			}
-			if ifi, ok := b.Instrs[len(b.Instrs)-1].(*ssa.If); ok {
-				if bo, ok := ifi.Cond.(*ssa.BinOp); ok && (bo.Op == token.NEQ || bo.Op == token.EQL) {
-					dx, dy := p.Desc(bo.X), p.Desc(bo.Y)
-					if (strings.HasSuffix(dx, ".snapshot") && dy == "lookupSnapshot") || (strings.HasSuffix(dy, ".snapshot") && dx == "lookupSnapshot") {
-						cmp = ifi
-					}
-				}
-			}
-		}
-		if cmp == nil {
-			c.Check(false, "recheck:persisted-after-flush", gen.Instr, f,
-				"when the store's snapshot changed since the caller's lookup (a flush completed), the persisted bucket is looked up again under the lock",
-				"no comparison of s.snapshot with the lookup snapshot")
-		} else {
-			bo := cmp.Cond.(*ssa.BinOp)
-			same := eng.Edge{B: cmp.Block(), Succ: 1}
-			if bo.Op == token.EQL {
-				same = eng.Edge{B: cmp.Block(), Succ: 0}
-			}
-			get := p.Sites(f, eng.CallTo("index/model.TrieBucket.GetValue"))
-			_, skip := eng.PathExists(eng.PathQuery{Fn: f, Target: func(in ssa.Instruction) bool { return in == gen.Instr },
-				Blocked: func(in ssa.Instruction) bool { return instrIn(in, get) }, Edge: func(b *ssa.BasicBlock, s int) bool {
-					// forbid the "snapshot unchanged" edge and the "bucket == nil" edge
-					if b == same.B && s == same.Succ {
-						return false
-					}
-					return !isNilBucketEdge(p, b, s)
-				}})
-			c.Check(len(get) > 0 && !skip, "recheck:persisted-after-flush", cmp, f,
-				"when the snapshot changed and the bucket exists, the generator is reached only after bucket.GetValue(key) missed", "a path with a changed snapshot skips the persisted lookup")
-			for i, g := range get {
-				miss := facts.Find(facts.At(gen.Instr), "false", func(_ string, v ssa.Value) bool { return extractIs(v, g.Instr.(ssa.Value), 1) }, nil)
-				_ = miss
-				// hit edge must return without generating: generator unreachable via the hit edge
-				te, _ := eng.BoolCheckEdges(f, g.Instr.(ssa.Value))
-				hitReaches := false
-				for _, e := range te {
-					first := e.B.Succs[e.Succ].Instrs[0]
-					if first == gen.Instr {
-						hitReaches = true
-					}
-					if _, ok := eng.PathExists(eng.PathQuery{Fn: f, After: first, Target: func(in ssa.Instruction) bool { return in == gen.Instr }}); ok {
-						hitReaches = true
-					}
-				}
-				c.Check(len(te) > 0 && !hitReaches, fmt.Sprintf("persisted-hit-returns[%d]", i), g.Instr, f, "a hit in the persisted bucket returns that ID and never generates", "the generator is reachable from the hit edge")
-			}
-			// the caller captures the snapshot BEFORE its memory lookup
-			g := c.Fn(kvsT + ".getOrCreateValue")
-			call := c.One(g, eng.CallTo(kvsT+".createValue"), "createValue call")
-			snapArg := eng.CallArgs(call.Instr.(*ssa.Call))[2]
-			sn, ok := snapArg.(*ssa.Call)
-			okSnap := ok && inList(strings.Join(p.CalleeKeys(sn), ""), []string{kvsT + ".getSnapshot"})
-			memLook := c.Some(g, eng.CallTo(kvsT+".GetValueFromMem"), "memory lookup")
-			c.Check(okSnap && eng.DominatedBy(g, memLook[0].Instr, []eng.Site{{Fn: g, Instr: sn}}, nil), "lookup-snapshot-taken-first", call.Instr, g,
-				"the snapshot handed to createValue is captured before the memory lookup (so a flush completing during the lookup is detected)", "snapshot argument is "+p.Desc(snapArg))
-		}
-	})
+	c.Rule("GOC", kvsT+".createValue", func() { gocCreateValue(c) })
 
 	// ---- 5. UNION: lookup consults memory and persisted store before creating ---------------------------
 	c.Rule("UNION", kvsT+".getOrCreateValue", func() {
@@ -354,13 +245,7 @@ func runC09(c *eng.Ctx) {
 	})
 
 	// ---- 6/7. flush ordering ---------------------------------------------------------------------------------------
-	c.Rule("ORDER", mmT+".Flush{counters<dictionaries}", func() {
-		f := c.Fn(mmT + ".Flush")
-		sync := eng.CallTo(seqT + ".Sync")
-		for _, d := range []string{".ns", ".metric", ".tagValue", ".schemaStore"} {
-			okOrderInFn(c, f, sync, invokeOn(d, "Flush"), "sequence.Sync", "mm"+d+".Flush")
-		}
-	})
+	c.Rule("ORDER", mmT+".Flush{counters<dictionaries}", func() { metaFlushCountersFirst(c) })
 	c.Rule("ORDER", midT+".Flush{postings<series-dictionary}", func() {
 		f := c.Fn(midT + ".Flush")
 		ser := invokeOn(".series", "Flush")
@@ -803,4 +688,127 @@ func schemaFlushMarksWhatItWrote(c *eng.Ctx) {
 		c.Check(at != nil && ls.At(at).HasField(mssMu, true), fmt.Sprintf("marking-under-write-lock[%d]", i), m.Instr, f, "entries are marked persisted under the store's write lock", "")
 	}
 	c.Check(len(markAll)+len(marks) > 0, "marks-something", nil, f, "Flush marks the written entries persisted", "no marking found")
+}
+
+func gocCreateValue(c *eng.Ctx) {
+	p := c.P
+	_ = p
+	f := c.Fn(kvsT + ".createValue")
+	ls := p.Locks(f, nil)
+	facts := p.MustFacts(f)
+	gen := c.One(f, eng.CallTo("param:createFn"), "createFn()")
+	ins := c.Some(f, func(p *eng.Prog, in ssa.Instruction) bool { _, ok := in.(*ssa.MapUpdate); return ok }, "insert kvs[key] = id")
+	c.Check(ls.At(gen.Instr).HasField(kvsMu, true), "generator-under-lock", gen.Instr, f, "the ID generator runs under the store's write lock", "held: "+ls.At(gen.Instr).String())
+	for i, s := range ins {
+		ok, why := ls.SameHold(gen.Instr, s.Instr, kvsMu, true)
+		c.Check(ok, fmt.Sprintf("generate-and-insert-one-hold[%d]", i), s.Instr, f, "the ID is generated and inserted in one write hold", why)
+		mu := s.Instr.(*ssa.MapUpdate)
+		c.Check(eng.DerivesFromCall(mu.Value, gen.Instr.(ssa.Value), 0), fmt.Sprintf("inserted-id-is-generated[%d]", i), s.Instr, f, "the inserted value is the generated ID", "inserts "+p.Desc(mu.Value))
+		c.Check(eng.DependsOn(mu.Map, func(x ssa.Value) bool { return strings.HasSuffix(p.Desc(x), ".mutable") }), fmt.Sprintf("insert-into-mutable[%d]", i), s.Instr, f,
+			"the new entry goes into the mutable store", "map is "+p.Desc(mu.Map))
+		okd, why2 := eng.OkDominates(f, gen.Instr, s.Instr)
+		c.Check(okd, fmt.Sprintf("insert-only-on-generator-success[%d]", i), s.Instr, f, "nothing is inserted when the generator failed", why2)
+	}
+	// re-check of both memory stores under the lock, generator only on their miss edges
+	for _, mem := range []string{"mutable", "immutable"} {
+		var look []eng.Site
+		for _, s := range p.Sites(f, eng.CallTo(kvsT+".getValueFromMem")) {
+			a := eng.CallArgs(s.Instr.(*ssa.Call))
+			if strings.HasSuffix(p.Desc(a[0]), "."+mem) && p.Desc(a[2]) == "key" && p.Desc(a[1]) == "bucketID" {
+				look = append(look, s)
+			}
+		}
+		if len(look) == 0 {
+			c.Check(false, "recheck:"+mem, gen.Instr, f, "the key is looked up again in the "+mem+" store under the write lock before an ID is generated",
+				"no getValueFromMem(s."+mem+", bucketID, key) in createValue")
+			continue
+		}
+		l := look[0].Instr
+		okh, why := ls.SameHold(l, gen.Instr, kvsMu, true)
+		c.Check(okh, "recheck-in-hold:"+mem, l, f, "the re-check of "+mem+" and the generation are in the same write hold", why)
+		hit, _ := eng.BoolCheckEdges(f, l.(ssa.Value))
+		hitReaches := false
+		for _, e := range hit {
+			first := e.B.Succs[e.Succ].Instrs[0]
+			if _, ok := eng.PathExists(eng.PathQuery{Fn: f, After: first, Target: func(in ssa.Instruction) bool { return in == gen.Instr }}); ok || first == gen.Instr {
+				hitReaches = true
+			}
+		}
+		c.Check(len(hit) > 0 && !hitReaches && eng.DominatedBy(f, gen.Instr, look, nil), "generate-only-on-miss:"+mem, gen.Instr, f,
+			"an ID is generated only after the "+mem+" re-check missed (no path from its hit outcome reaches the generator; a hit returns the existing ID)",
+			fmt.Sprintf("hit edges %d, generator reachable from a hit: %v", len(hit), hitReaches))
+	}
+	// a flush that completed between lookup and lock moved entries to the persisted store
+	var cmp *ssa.If
+	for _, b := range eng.BlocksT(f) {
+		if len(b.Instrs) == 0 {
+			continue
+		}
+		if ifi, ok := b.Instrs[len(b.Instrs)-1].(*ssa.If); ok {
+			if bo, ok := ifi.Cond.(*ssa.BinOp); ok && (bo.Op == token.NEQ || bo.Op == token.EQL) {
+				dx, dy := p.Desc(bo.X), p.Desc(bo.Y)
+				if (strings.HasSuffix(dx, ".snapshot") && dy == "lookupSnapshot") || (strings.HasSuffix(dy, ".snapshot") && dx == "lookupSnapshot") {
+					cmp = ifi
+				}
+			}
+		}
+	}
+	if cmp == nil {
+		c.Check(false, "recheck:persisted-after-flush", gen.Instr, f,
+			"when the store's snapshot changed since the caller's lookup (a flush completed), the persisted bucket is looked up again under the lock",
+			"no comparison of s.snapshot with the lookup snapshot")
+	} else {
+		bo := cmp.Cond.(*ssa.BinOp)
+		same := eng.Edge{B: cmp.Block(), Succ: 1}
+		if bo.Op == token.EQL {
+			same = eng.Edge{B: cmp.Block(), Succ: 0}
+		}
+		get := p.Sites(f, eng.CallTo("index/model.TrieBucket.GetValue"))
+		_, skip := eng.PathExists(eng.PathQuery{Fn: f, Target: func(in ssa.Instruction) bool { return in == gen.Instr },
+			Blocked: func(in ssa.Instruction) bool { return instrIn(in, get) }, Edge: func(b *ssa.BasicBlock, s int) bool {
+				// forbid the "snapshot unchanged" edge and the "bucket == nil" edge
+				if b == same.B && s == same.Succ {
+					return false
+				}
+				return !isNilBucketEdge(p, b, s)
+			}})
+		c.Check(len(get) > 0 && !skip, "recheck:persisted-after-flush", cmp, f,
+			"when the snapshot changed and the bucket exists, the generator is reached only after bucket.GetValue(key) missed", "a path with a changed snapshot skips the persisted lookup")
+		for i, g := range get {
+			miss := facts.Find(facts.At(gen.Instr), "false", func(_ string, v ssa.Value) bool { return extractIs(v, g.Instr.(ssa.Value), 1) }, nil)
+			_ = miss
+			// hit edge must return without generating: generator unreachable via the hit edge
+			te, _ := eng.BoolCheckEdges(f, g.Instr.(ssa.Value))
+			hitReaches := false
+			for _, e := range te {
+				first := e.B.Succs[e.Succ].Instrs[0]
+				if first == gen.Instr {
+					hitReaches = true
+				}
+				if _, ok := eng.PathExists(eng.PathQuery{Fn: f, After: first, Target: func(in ssa.Instruction) bool { return in == gen.Instr }}); ok {
+					hitReaches = true
+				}
+			}
+			c.Check(len(te) > 0 && !hitReaches, fmt.Sprintf("persisted-hit-returns[%d]", i), g.Instr, f, "a hit in the persisted bucket returns that ID and never generates", "the generator is reachable from the hit edge")
+		}
+		// the caller captures the snapshot BEFORE its memory lookup
+		g := c.Fn(kvsT + ".getOrCreateValue")
+		call := c.One(g, eng.CallTo(kvsT+".createValue"), "createValue call")
+		snapArg := eng.CallArgs(call.Instr.(*ssa.Call))[2]
+		sn, ok := snapArg.(*ssa.Call)
+		okSnap := ok && inList(strings.Join(p.CalleeKeys(sn), ""), []string{kvsT + ".getSnapshot"})
+		memLook := c.Some(g, eng.CallTo(kvsT+".GetValueFromMem"), "memory lookup")
+		c.Check(okSnap && eng.DominatedBy(g, memLook[0].Instr, []eng.Site{{Fn: g, Instr: sn}}, nil), "lookup-snapshot-taken-first", call.Instr, g,
+			"the snapshot handed to createValue is captured before the memory lookup (so a flush completing during the lookup is detected)", "snapshot argument is "+p.Desc(snapArg))
+	}
+}
+
+func metaFlushCountersFirst(c *eng.Ctx) {
+	p := c.P
+	_ = p
+	f := c.Fn(mmT + ".Flush")
+	sync := eng.CallTo(seqT + ".Sync")
+	for _, d := range []string{".ns", ".metric", ".tagValue", ".schemaStore"} {
+		okOrderInFn(c, f, sync, invokeOn(d, "Flush"), "sequence.Sync", "mm"+d+".Flush")
+	}
 }
